@@ -225,6 +225,22 @@ func runC10(c *h.Ctx) {
 		} else if !proto.Equal(m, m2) {
 			cs.Viol("pdom:Marshal:different-message:"+mode, "got", fmt.Sprint(m2))
 		}
+		// the marshalled bytes belong to the caller: a second marshal (of another message) and a cut must not touch them
+		held := append([]byte{}, out...)
+		m3 := PGenMsg(cs.R, pc.Root, PValCfg{MaxElems: 5, MaxDepth: 3}, 0)
+		b3 := PMarshal(m3)
+		t3 := pg.NewPathNode()
+		t3.Node = pg.NewNode(dproto.MESSAGE, b3)
+		if t3.Load(true, opts, desc) == nil {
+			t3.Marshal(opts)
+		}
+		pg.FreePathNode(t3)
+		pg.NewRootValue(desc, b3).MarshalTo(desc, opts)
+		if !bytes.Equal(out, held) {
+			cs.Viol("pdom:Marshal:result-changed-by-later-calls:"+mode, "was", held, "now", out)
+			return
+		}
+		cs.Cover("dom_marshal_result_held_intact")
 		cs.Cover("dom_roundtrip_" + mode)
 		cs.Distinct("dom-" + mode + "-" + c20Shape(m))
 		if cs.I == 1 {
